@@ -30,7 +30,7 @@ pub fn def12() -> PropDef {
     PropDef {
         info: PropInfo {
             id: "C12",
-            rule: "verifier-accepted near-valid byte strings and structured programs (incl. 32k-100k instruction programs for the JIT and 1,000,000-instruction programs in the thorough tier), with helper sets in which called ids are present or missing; in a forked child jit_compile and cranelift_compile each run twice under catch_unwind. Oracle: Ok or Err, never a panic / abort / signal (the crate's own emit bounds assertion is active); both compilations give the same verdict and - for the JIT, through hook H2 - byte-identical code. Non-trivial = accepted program with at least one jump or call; distinct by hash.",
+            rule: "verifier-accepted near-valid byte strings, structured programs and dense straight-line programs of every length 1-400 built from the instructions with the largest machine-code expansion (incl. 32k-100k instruction programs for the JIT and 1,000,000-instruction programs in the thorough tier), with helper sets in which called ids are present or missing; in a forked child jit_compile and cranelift_compile each run twice under catch_unwind. Oracle: Ok or Err, never a panic / abort / signal (the crate's own emit bounds assertion is active); both compilations give the same verdict and - for the JIT, through hook H2 - byte-identical code. Non-trivial = accepted program with at least one jump or call; distinct by hash.",
             assumptions: &["code-buffer overruns are detected by rbpf's own emit_bytes! assertion (debug assertions are on for the rbpf crate in the harness profile) and by process death", "Cranelift machine code is not compared byte for byte (no hook), only the verdicts"],
         },
         run: run12,
@@ -280,6 +280,24 @@ fn run12(ctx: &Ctx) {
         let mut st = ctx.stats();
         let frozen = st.is_frozen() || want_case;
         let v = check12(&mut runner.borrow_mut(), &mut case, &both, if frozen { None } else { Some(&mut st) }, "struct");
+        (v, if want_case { case.to_json() } else { Value::Null })
+    });
+    // dense programs: worst-case code expansion at every length (the compilers' size estimation)
+    let cases = ctx.share(ctx.tier.pick(9_600, 240_000));
+    ctx.shrink_iters.set(400);
+    ctx.search("dense-jit", "jit", cases, gen::dense(400, true), |c, want_case| {
+        let mut case = c.clone();
+        let mut st = ctx.stats();
+        let frozen = st.is_frozen() || want_case;
+        let v = check12(&mut runner.borrow_mut(), &mut case, &jit, if frozen { None } else { Some(&mut st) }, "dense");
+        (v, if want_case { case.to_json() } else { Value::Null })
+    });
+    let cases = ctx.share(ctx.tier.pick(640, 16_000));
+    ctx.search("dense-both", "both", cases, gen::dense(300, true), |c, want_case| {
+        let mut case = c.clone();
+        let mut st = ctx.stats();
+        let frozen = st.is_frozen() || want_case;
+        let v = check12(&mut runner.borrow_mut(), &mut case, &both, if frozen { None } else { Some(&mut st) }, "dense");
         (v, if want_case { case.to_json() } else { Value::Null })
     });
     // long programs: JIT only (Cranelift is capped by compile time)
